@@ -17,7 +17,7 @@ import random
 import common
 import lsp
 import lspq
-from c17 import accepted_groups
+from c17 import accepted_groups, pick_groups
 from common import Check, run_oalv
 
 FRESH = "zz9fresh"
@@ -158,9 +158,8 @@ def run(tier):
     common.build_bins()
     groups = accepted_groups(tier, chk)
     n_all = len(groups)
-    nrun = 20 if tier == "quick" else 300
-    if len(groups) > nrun:
-        groups = rng.sample(groups, nrun)
+    nrun = 36 if tier == "quick" else 400
+    groups = pick_groups(groups, nrun, rng)
     jobs = [("q%d" % i, g, (i + 1 + common.seed()) % 4) for i, g in enumerate(groups)]
     with cf.ThreadPoolExecutor(max_workers=8) as ex:
         results = list(ex.map(lambda j: check_program(*j), jobs))
